@@ -620,6 +620,19 @@ Definition code_word (w : string) : ctok :=
   else if String.eqb w "if" then CX XIf else if String.eqb w "else" then CX XElse
   else if String.eqb w "and" then CX XAnd else if String.eqb w "or" then CX XOr else if String.eqb w "not" then CX XNot
   else CBad.
+(* a Python name with attribute parts: an identifier, then `.identifier` as long as a letter / underscore follows the dot
+   (np.exp is one word; in `if.5` the word is `if` and `.5` is a number, as for CPython) *)
+Fixpoint span_name (fuel : nat) (s : string) : string * string :=
+  let '(w, r) := span_while is_idc s in
+  match fuel with
+  | S f =>
+    match r with
+    | String d (String a r') =>
+      if Ascii.eqb d "." && is_alpha_ a then let '(w2, r2) := span_name f (String a r') in (w ++ String "." w2, r2) else (w, r)
+    | _ => (w, r)
+    end
+  | O => (w, r)
+  end.
 Fixpoint lex_code (fuel : nat) (s : string) : list ctok :=
   match fuel with
   | O => [CBad]
@@ -653,7 +666,7 @@ Fixpoint lex_code (fuel : nat) (s : string) : list ctok :=
           | Some (k, r3) => CRead name k :: lex_code f r3
           | None => [CBad]
           end
-        | None => let '(w, r1) := span_while is_fnc s in code_word w :: lex_code f r1
+        | None => let '(w, r1) := span_name (String.length s) s in code_word w :: lex_code f r1
         end
       else tok_of_char c :: lex_code f r
     end
